@@ -560,6 +560,28 @@ class Splicer:
         # subsequence): a contract whose closure is gone is dropped, the others stay with their closures
         ptexts_ = [rs.norm(toks, c["params_lo"], c["params_hi"]) for c in cls]
         ords_ = sorted(specd)
+        # a closure whose plain parameters were merely renamed keeps its contract: the contract follows the parameters by
+        # position (same number of closures, same arity, identifiers only)
+        if specd and len(cls) == max(ords_) == len(ords_):
+            import copy as _copy
+            for o_ in ords_:
+                want_, have_ = rs.norm_text(specd[o_].params), ptexts_[o_ - 1]
+                mw_ = re.match(r"^\| ([a-z_][a-z_0-9]*(?: , [a-z_][a-z_0-9]*)*) \|$", want_)
+                mh_ = re.match(r"^\| ([a-z_][a-z_0-9]*(?: , [a-z_][a-z_0-9]*)*) \|$", have_)
+                if want_ != have_ and mw_ and mh_ and len(mw_.group(1).split(" , ")) == len(mh_.group(1).split(" , ")):
+                    ren_ = {a_: b_ for a_, b_ in zip(mw_.group(1).split(" , "), mh_.group(1).split(" , ")) if a_ != b_ and a_ != "_" and b_ != "_"}
+                    if ren_ and not specd[o_].destructure:
+                        cs_ = _copy.deepcopy(specd[o_])
+                        def _sub(text_):
+                            for a_, b_ in ren_.items():
+                                text_ = re.sub(r"(?<![A-Za-z0-9_.])%s(?![A-Za-z0-9_])" % re.escape(a_), b_, text_)
+                            return text_
+                        cs_.params = "|" + ", ".join(mh_.group(1).split(" , ")) + "|"
+                        cs_.header = _sub(cs_.header)
+                        for cl_ in cs_.clauses:
+                            cl_.expr = _sub(cl_.expr)
+                        specd[o_] = cs_
+                        g.meta.setdefault("param_renames", []).append({"fn": key, "closure": o_, "renamed": ren_})
         if specd and [rs.norm_text(specd[o].params) for o in ords_] != [ptexts_[o - 1] if o <= len(ptexts_) else None for o in ords_]:
             A_ = [rs.norm_text(specd[o].params) for o in ords_]
             L_ = [[0] * (len(ptexts_) + 1) for _ in range(len(A_) + 1)]
